@@ -11,5 +11,6 @@ CONSTANTS
   Variant = "fresh"
   ElemOf <- Elem2
   CacheVariant = "none"
+  OwnerVariant = "keep"
 VIEW ViewDepth
 CHECK_DEADLOCK FALSE
